@@ -239,7 +239,7 @@ void NonPositiveVisitor::bvisit(const Symbol &x)
 
 void NonPositiveVisitor::bvisit(const Number &x)
 {
-    if (is_a_Complex(x) or x.is_complex()) {
+    if (is_a_Complex(x) or x.is_complex() or is_a<NaN>(x)) {
         is_nonpositive_ = tribool::trifalse;
     } else if (bool(x.is_positive())) {
         is_nonpositive_ = tribool::trifalse;
@@ -363,7 +363,7 @@ void NonNegativeVisitor::bvisit(const Symbol &x)
 
 void NonNegativeVisitor::bvisit(const Number &x)
 {
-    if (is_a_Complex(x) or x.is_complex()) {
+    if (is_a_Complex(x) or x.is_complex() or is_a<NaN>(x)) {
         is_nonnegative_ = tribool::trifalse;
     } else if (bool(x.is_negative())) {
         is_nonnegative_ = tribool::trifalse;
